@@ -108,17 +108,18 @@ type verifStored struct {
 
 type verifNaiveStore struct {
 	blobstore.BlobAccess
-	failPut bool
-	puts    int
-	stored  []verifStored
-	events  *[]string
+	failPut  bool // every Put fails
+	failCall int  // the failCall-th Put (from 1) fails; 0: none
+	puts     int
+	stored   []verifStored
+	events   *[]string
 }
 
 var verifErrBackend = status.Error(codes.Unavailable, "verif: backend unavailable")
 
 func (s *verifNaiveStore) Put(ctx context.Context, d digest.Digest, b buffer.Buffer) error {
 	s.puts++
-	if s.failPut {
+	if s.failPut || s.puts == s.failCall {
 		b.Discard()
 		return verifErrBackend
 	}
